@@ -222,7 +222,7 @@ def replay_scripts(ctx, fi, cfg, flavour, expected, nchunks, limit, extra_expect
 FORMATS = ['raw', 'qcow2', 'vhd', 'vhdx', 'vmdk', 'vdi', 'qed', 'iso', 'gpt', 'luks']
 
 
-def record_real(fi, data, read_size, flavour, expected, inject, rnd):
+def record_real(fi, data, read_size, flavour, expected, inject, rnd, allowed=None):
     """Trace at the spec's grain: start / feed(i) / end | raise, with the
     scripts (failAt, completeAt/match of the expected inspector) read off the run."""
     st = State()
@@ -230,8 +230,10 @@ def record_real(fi, data, read_size, flavour, expected, inject, rnd):
     if flavour == 'iter' and len(chunks) > 1 and rnd.random() < 0.4:
         chunks.insert(rnd.randrange(1, len(chunks)), b'')      # an empty chunk in the middle of an iterator source
     src = FileSrc(chunks, st) if flavour == 'file' else IterSrc(chunks, st)
-    w = fi.InspectWrapper(src, expected_format=expected)
+    w = fi.InspectWrapper(src, expected_format=expected, allowed_formats=allowed)
     fail_at = {n: 0 for n in FORMATS}
+    if allowed is not None and sorted(i.NAME for i in w._inspectors) != sorted(allowed):
+        st.log.append(('raise', 'wrong-inspector-set'))
     first_complete = {}
     for insp in w._inspectors:
         orig = insp.eat_chunk
@@ -335,14 +337,23 @@ def real_traces(ctx, fi):
     expecteds = FORMATS + [None]
     for fl in ('file', 'iter'):
         for exp in expecteds:
-            combos.append((fl, exp))
+            combos.append((fl, exp, None))
     if quick:
         rnd.shuffle(combos)
-        combos = combos[:8]
+        combos = combos[:7]
+    # allowed_formats: the wrapper runs only the named inspectors (the expected one among them)
+    for k in range(3 if quick else 12):
+        exp = rnd.choice(FORMATS + [None])
+        allowed = sorted(set(rnd.sample(FORMATS, rnd.randint(1, 4)) + ([exp] if exp else [])))
+        combos.append((rnd.choice(['file', 'iter']), exp, allowed))
     total = 0
     per = 60 if quick else 300
     sample = None
-    for fl, exp in combos:
+    for fl, exp, allowed in combos:
+        env = {'TRACE_EXPECTED': exp or 'none', 'TRACE_FLAVOUR': fl}
+        for nm in FORMATS:
+            if allowed is not None and nm not in allowed:
+                env['TRACE_DROP_' + nm] = '1'
         batch = []
         meta = []
         for j in range(per):
@@ -360,8 +371,8 @@ def real_traces(ctx, fi):
                 nreads = max(1, (len(data) + rs - 1) // rs)
             inject = None
             if j % 2:
-                inject = (rnd.choice(FORMATS[1:]), rnd.randint(1, min(8, nreads)))
-            tr, transparent, exc = record_real(fi, data, rs, fl, exp, inject, rnd)
+                inject = (rnd.choice([f for f in FORMATS[1:] if allowed is None or f in allowed] or FORMATS[1:]), rnd.randint(1, min(8, nreads)))
+            tr, transparent, exc = record_real(fi, data, rs, fl, exp, inject, rnd, allowed)
             if not transparent:
                 ctx.violation({'kind': 'not-transparent', 'flavour': fl},
                               {'expected_format': exp, 'read_size': rs, 'inject': inject, 'len': len(data)},
@@ -374,19 +385,18 @@ def real_traces(ctx, fi):
             batch.append(tr)
             meta.append((len(data), rs, inject, exc))
         rejected, inv, r = traces.validate(
-            ctx, 'Trace_InspectWrapper', batch, '%s_%s' % (fl, exp),
-            env={'TRACE_EXPECTED': exp or 'none', 'TRACE_FLAVOUR': fl})
+            ctx, 'Trace_InspectWrapper', batch, '%s_%s_%s' % (fl, exp, 'all' if allowed is None else '-'.join(allowed)),
+            env=env)
         ctx.tlc(r, 'Trace_InspectWrapper %s expected=%s' % (fl, exp), counts_as_states=False)
         total += len(batch) - len(rejected)
         sample = sample or batch[0]
         for i in sorted(rejected)[:4]:
-            at, inv1 = traces.diagnose(ctx, 'Trace_InspectWrapper', batch[i],
-                                       env={'TRACE_EXPECTED': exp or 'none', 'TRACE_FLAVOUR': fl})
+            at, inv1 = traces.diagnose(ctx, 'Trace_InspectWrapper', batch[i], env=env)
             ev = batch[i]['ev']
             ctx.violation(
                 {'kind': 'wrapper-trace', 'flavour': fl, 'expected': exp is not None, 'invariant': inv1,
                  'op': ev[at - 1]['op'] if at <= len(ev) else 'end'},
-                {'trace': batch[i], 'meta': meta[i], 'rejected_at_line': at, 'expected_format': exp},
+                {'trace': batch[i], 'meta': meta[i], 'rejected_at_line': at, 'expected_format': exp, 'allowed_formats': allowed},
                 'recorded InspectWrapper run (%s source, expected_format=%r, %d bytes, read size %d, injection %s) is not a '
                 'behaviour of the specification: line %d %s %s' % (
                     fl, exp, meta[i][0], meta[i][1], meta[i][2], at,
